@@ -112,7 +112,10 @@ def variable_domain_signature(spec: Any) -> Dict[str, Any]:
         try:
             digest = _sha256_json(values)
         except TypeError:
+            # Values JSON cannot encode (dates, sets, bytes, ...): the digest and the
+            # samples fall back to repr, so that the signature itself stays serializable.
             digest = hashlib.sha256(repr(values).encode("utf-8")).hexdigest()
+            head, tail = [repr(v) for v in head], [repr(v) for v in tail]
         return {
             "kind": "sequence",
             "count": len(values),
